@@ -14,7 +14,7 @@ on the source of the final `grp` and prints the expected group view (or `none`) 
 model's result.
 
 Text <-> number conversions are instantiated only on the domain the check uses: `fmtReal` is a table of
-eight reals whose `%.15g` text is unambiguous, `strToNum` parses plain decimal integers and answers
+ten reals whose `%.15g` text is unambiguous, `strToNum` parses plain decimal integers and answers
 NotANumber for strings of ASCII letters.
 -/
 namespace Qentem.Driver.Value
@@ -48,7 +48,9 @@ def realTable : List (Nat × String) :=
     (0x3fb999999999999a, "0.1"),
     (0x4202a05f20000000, "10000000000"),
     (0x419d6f3454800000, "123456789.125"),
-    (0xbfe0000000000000, "-0.5") ]
+    (0xbfe0000000000000, "-0.5"),
+    (0x8000000000000000, "-0"),
+    (0x4014000000000000, "5") ]
 
 def fmtReal (b : Nat) : List Nat :=
   match realTable.find? (fun e => e.1 == b) with
